@@ -131,8 +131,20 @@ def pad (k : Nat) (b : Bytes) : Bytes :=
   let m := k - b.length % k
   b ++ List.replicate m (UInt8.ofNat m)
 
-/-- `unpadBuffer`; the empty buffer passes the length check and then `buffer[len-1]` panics. -/
+/-- `unpadBuffer` (repaired, F28): an empty buffer is invalid padding. Before, it passed the length check and
+`buffer[len-1]` panicked (`unpadUnrepaired`). -/
 def unpad (k : Nat) (b : Bytes) : Res Bytes :=
+  if b.length = 0 ∨ b.length % k ≠ 0 then err .generic else
+  match b.getLast? with
+  | none => .panic   -- unreachable: the buffer is not empty
+  | some last =>
+    let count := last.toNat
+    if count = 0 ∨ count > k ∨ count > b.length then err .generic
+    else if b.drop (b.length - count) = List.replicate count last then ok (b.take (b.length - count))
+    else err .generic
+
+/-- `unpadBuffer` before the repair of F28. -/
+def unpadUnrepaired (k : Nat) (b : Bytes) : Res Bytes :=
   if b.length % k ≠ 0 then err .generic else
   match b.getLast? with
   | none => .panic
